@@ -172,7 +172,7 @@ func (s *Sim) undecided(fn *ssa.Function, subject, detail string, in ssa.Instruc
 // roots
 
 func (s *Sim) AddRoot(r *Root) {
-	k := FuncName(r.Fn) + "|"
+	k := uniqFuncName(r.Fn) + "|"
 	for _, p := range r.Params {
 		k += p.Key() + ","
 	}
@@ -331,7 +331,7 @@ func (s *Sim) execFn(fr *Frame, st *State) []*State {
 	fn := fr.Fn
 	s.FuncsSeen[FuncName(fn)] = true
 	s.NFrames++
-	mk := FuncName(fn) + "|"
+	mk := uniqFuncName(fn) + "|"
 	for _, p := range fr.Params {
 		mk += p.Key() + ","
 	}
@@ -2408,7 +2408,7 @@ func (s *Sim) dropFrameObjects(fr *Frame, r *ssa.Return, st *State) {
 			delete(st.fresh, a)
 		}
 	}
-	prefix := FuncName(fr.Fn) + "·"
+	prefix := uniqFuncName(fr.Fn) + "·"
 	for k := range st.cells {
 		if strings.HasPrefix(k, prefix) {
 			delete(st.cells, k)
